@@ -22,6 +22,8 @@ var (
 	PVInfo            = ResourceInfo{Group: "", Version: "v1", Resource: "persistentvolumes", Kind: "PersistentVolume", Namespaced: false, HasStatus: true, NoGeneration: true}
 	WidgetInfo        = ResourceInfo{Group: "kids.dev", Version: "v1", Resource: "widgets", Kind: "Widget", Namespaced: true, HasStatus: true}
 	ClusterWidgetInfo = ResourceInfo{Group: "kids.dev", Version: "v1", Resource: "clusterwidgets", Kind: "ClusterWidget", Namespaced: false, HasStatus: true}
+	// a second resource with Kind "Widget" in another API group (harness name: AltWidget)
+	AltWidgetInfo = ResourceInfo{Group: "alt.dev", Version: "v1", Resource: "widgets", Kind: "Widget", Namespaced: true, HasStatus: true}
 	// related
 	SecretInfo = ResourceInfo{Group: "", Version: "v1", Resource: "secrets", Kind: "Secret", Namespaced: true, NoGeneration: true}
 	GadgetInfo = ResourceInfo{Group: "rel.dev", Version: "v1", Resource: "gadgets", Kind: "Gadget", Namespaced: true, HasStatus: true}
@@ -29,7 +31,7 @@ var (
 	// metacontroller's own
 	RevisionInfo = ResourceInfo{Group: "metacontroller.k8s.io", Version: "v1alpha1", Resource: "controllerrevisions", Kind: "ControllerRevision", Namespaced: true}
 
-	Catalog = []ResourceInfo{ThingInfo, ClusterThingInfo, NoStatusInfo, ConfigMapInfo, PodInfo, PVInfo, WidgetInfo, ClusterWidgetInfo, SecretInfo, GadgetInfo, ZoneInfo, RevisionInfo}
+	Catalog = []ResourceInfo{ThingInfo, ClusterThingInfo, NoStatusInfo, ConfigMapInfo, PodInfo, PVInfo, WidgetInfo, ClusterWidgetInfo, SecretInfo, GadgetInfo, ZoneInfo, RevisionInfo, AltWidgetInfo}
 )
 
 func InfoByKind(apiVersion, kind string) (ResourceInfo, bool) {
